@@ -9,13 +9,19 @@
      C09_pages        the per-page re-basing makes page row i read table row start+i (matrices of two or
                       more rows), and leaves scalars / single rows alone — so the binding does not depend
                       on where the page breaks fall;
-     C09_order        displayed column j of a row is original column (kept j) of that row.
+     C09_order        displayed column j of a row is original column (kept j) of that row;
+     C09_page_binding (Proofs/BindingProofs.v) the composition, for EVERY rectangular attribute matrix, table size,
+                      removed-column set, page start and height: the attribute the page reads for page row i,
+                      displayed column j - after column slicing AND per-page re-basing - is the user's attribute at
+                      table row start+i, original column of j;
+     C09_page_fields  every attribute of the page's record except border_top / border_bottom IS that sliced and
+                      re-based attribute (C07's border post-processing touches those two only).
    On the implementation, check_c09 applies the attributes at the cell's ORIGINAL (row, column) directly
    (expected_cell) and compares font, size, style, colours, justification, indents, spacing,
    hyphenation, border style / width / colour, vertical alignment, row height and \cellx of every data
    cell of every page (boundary borders of C07 excepted). *)
 From Coq Require Import List NArith ZArith Bool Arith.
-From V Require Import Str Doc Broadcast Pipeline BroadcastProofs.
+From V Require Import Str Doc Broadcast Paginate Pipeline BroadcastProofs BindingProofs.
 Import ListNotations.
 Local Open Scope nat_scope.
 
@@ -47,6 +53,24 @@ Theorem C09_order : forall (A : Type) (rem : list nat) (l : list A) j,
   = match nth_error (kept rem 0 (length l)) j with Some k => nth_error l k | None => None end.
 Proof. exact @drop_idx_nth. Qed.
 Print Assumptions C09_order.
+
+Theorem C09_page_binding : forall (A : Type) (v : mat A) n cols C rem start h i j k,
+  v <> [] -> 0 < C -> rect v C -> start + i < n -> i < h ->
+  nth_error (kept rem 0 cols) j = Some k ->
+  get (rebase start h (slice_cols n cols rem (Some v))) i j = get (Some v) (start + i) k.
+Proof. exact @page_binding. Qed.
+Print Assumptions C09_page_binding.
+
+Theorem C09_page_fields : forall s pattrs p w,
+  pc_len p <> 0 ->
+  let a := pb_attrs (process_page s pattrs p w) in
+  let r := rebase_attrs (pc_slice_start p) (pc_len p) pattrs in
+  a_font a = a_font r /\ a_format a = a_format r /\ a_size a = a_size r /\ a_color a = a_color r /\ a_bg a = a_bg r
+  /\ a_just a = a_just r /\ a_ifirst a = a_ifirst r /\ a_ileft a = a_ileft r /\ a_iright a = a_iright r
+  /\ a_space a = a_space r /\ a_sb a = a_sb r /\ a_sa a = a_sa r /\ a_hyph a = a_hyph r /\ a_conv a = a_conv r
+  /\ a_bl a = a_bl r /\ a_br a = a_br r /\ a_bcl a = a_bcl r /\ a_bcr a = a_bcr r /\ a_bct a = a_bct r /\ a_bcb a = a_bcb r
+  /\ a_bw a = a_bw r /\ a_ch a = a_ch r /\ a_cj a = a_cj r /\ a_cvj a = a_cvj r.
+Proof. exact process_page_fields. Qed.
 
 (* a 3x3 format matrix, column 1 removed: displayed column 1 of row 2 is original column 2 *)
 Example C09_example :
